@@ -396,3 +396,59 @@ Theorem pipeline_all_folding (pfuel cfuel : nat) (files : list (text * text)) (r
   forall r, In r l -> fst (spec_lines content (N.to_nat f) r) <= count_terms (content (N.to_nat f)) /\
                       snd (spec_lines content (N.to_nat f) r) <= count_terms (content (N.to_nat f)).
 Proof. intros _ _ ws content Hs. exact (valid_folding_range ws Hs f l). Qed.
+
+(* ------------------------------------------------------------------------------------------ *)
+(** * The complete model analysis (group bridge: PipelineAll.analyze_all, analyze_all_ranges_valid): definition and
+      references on the complete symbol map, and the per-file diagnostics as update_diagnostics sends them (syntax
+      errors AND index diagnostics, merged per file), with only the size hypothesis *)
+From TG.Proofs Require PipelineAllRanges.
+
+Definition diag_entry {M : Type} (f : N) (l : list (N * N * M)) : file * list (rng * M) :=
+  (N.to_nat f, map (fun e => ((fst (fst e), snd (fst e)), snd e)) l).
+
+Theorem pipeline_all (pfuel cfuel : nat) (files : list (text * text)) (root : text) (A : PipelineAll.all_answers) :
+  PipelineAll.analyze_all pfuel cfuel files root = Some A ->
+  let ws := BridgeSymbol.an_texts (PipelineAll.aa_an A) in
+  let content := content_of ws in
+  small_ws ws ->
+  (forall f p t, PipelineAll.q_goto_sm A f p = SOk (Some t) ->
+     exists lr, h_definition content (N.to_nat f) (Some (loc_of t)) = Ok (Some (N.to_nat (fr_file t), lr)) /\
+                denotes ws t lr) /\
+  (forall f p rs, PipelineAll.q_references_sm A f p = SOk (Some rs) ->
+     exists lrs, h_references content (N.to_nat f) (Some (map loc_of rs)) = Ok (Some lrs) /\
+                 Forall2 (fun r out => fst out = N.to_nat (fr_file r) /\ denotes ws r (snd out)) rs lrs) /\
+  (forall f l, PipelineAll.q_diagnostics A f = Some l ->
+     h_diagnostics content [diag_entry f l] =
+       Ok [(N.to_nat f, map (fun e => (spec_range content (N.to_nat f) (fst (fst e), snd (fst e)), snd e)) l)] /\
+     forall e, In e l ->
+       denotes ws (mkFR f (fst (fst e)) (snd (fst e))) (spec_range content (N.to_nat f) (fst (fst e), snd (fst e)))).
+Proof.
+  intros HA ws content Hs.
+  destruct (PipelineAllRanges.analyze_all_ranges_valid _ _ _ _ _ HA) as (Hg & Hr & _ & Hd & _).
+  fold ws in Hg, Hr, Hd. split; [|split].
+  - intros f p t H. pose proof (Hg f p t H) as Hv.
+    destruct (valid_range_ok _ _ Hv) as (_ & _ & _ & Hok & _). eexists. split.
+    + apply c09_definition; [apply small_content; exact Hs|apply small_content; exact Hs|exact Hok].
+    + apply valid_denotes; assumption.
+  - intros f p rs H.
+    assert (Hv : forall r, In r rs -> range_valid ws r = true) by (intros r Hin; exact (Hr f p rs r H Hin)).
+    eexists. split.
+    + apply c09_references; [apply small_content; exact Hs|].
+      intros it Hin. apply in_map_iff in Hin. destruct Hin as (r & <- & Hin).
+      split; [apply small_content; exact Hs|].
+      destruct (valid_range_ok _ _ (Hv r Hin)) as (_ & _ & _ & Hok & _). exact Hok.
+    + rewrite map_map. apply Forall2_map_r. intros r Hin. cbn [fst snd]. split; [reflexivity|].
+      apply valid_denotes; [exact Hs|]. apply Hv. exact Hin.
+  - intros f l Hq.
+    assert (Hv : forall e, In e l -> range_valid ws (mkFR f (fst (fst e)) (snd (fst e))) = true).
+    { intros [[lo hi] m] Hin. exact (Hd f l lo hi m Hq Hin). }
+    split.
+    + rewrite (c09_diagnostics content (M := PipelineAll.dmsg) [diag_entry f l]).
+      * cbn [map diag_entry fst snd]. rewrite map_map. reflexivity.
+      * intros e [<-|[]]. cbn [diag_entry fst snd]. split; [apply small_content; exact Hs|].
+        intros d Hin. apply in_map_iff in Hin. destruct Hin as (e0 & <- & Hin). cbn [fst].
+        destruct (valid_range_ok _ _ (Hv e0 Hin)) as (_ & _ & _ & Hok & _).
+        unfold loc_of in Hok. cbn [fst snd fr_file fr_lo fr_hi] in Hok. exact Hok.
+    + intros e Hin. pose proof (valid_denotes ws _ Hs (Hv e Hin)) as Hden.
+      unfold loc_of in Hden. cbn [fst snd fr_file fr_lo fr_hi] in Hden. exact Hden.
+Qed.
